@@ -1,5 +1,5 @@
 (* Model/SighashBridge.v — definitions (no proofs) that connect Model/Sighash.v with Spec/SighashCore.v:
-   the model's transaction read as Core's CTransaction, and the exclusion predicate of the known finding.
+   the model's transaction read as Core's CTransaction.
    Kept apart from Proofs/SighashP.v so that the extraction does not depend on any proof. *)
 From PV Require Import Base.Bytes Base.Outcome Model.Sighash Spec.SighashCore.
 Local Open Scope N_scope.
@@ -10,23 +10,4 @@ Definition to_core_in (i : txin) : CTxIn :=
 Definition to_core_out (o : txout) : CTxOut := mkCTxOut (to_value o) (to_script o).
 Definition to_core (t : tx) : CTransaction :=
   mkCTx (tx_version t) (map to_core_in (tx_ins t)) (map to_core_out (tx_outs t)) (tx_lock t).
-
-(* ---- exclusion predicate of the known finding --------------------------------------------------- *)
-(* the script has an undecodable instruction and pycoin's walk, which goes on behind it, removes
-       something there.  `undecodable_tail` = the script from its first undecodable instruction on. *)
-Fixpoint undecodable_tail_fuel (fuel : nat) (s : bytes) : bytes :=
-  match fuel with
-  | O => s
-  | S f => match core_get_op s with
-           | GOk _ len => undecodable_tail_fuel f (skipn len s)
-           | GFail _ => s
-           end
-  end.
-Definition undecodable_tail (s : bytes) : bytes := undecodable_tail_fuel (length s) s.
-Definition rewalk_excluded (sub script : bytes) : bool :=
-  let tail := undecodable_tail script in
-  match delete_subscript tail sub with
-  | Ret w => negb (bytes_eqb w tail)
-  | _ => true
-  end.
 
